@@ -10,15 +10,27 @@ then yields with `asyncio.sleep(0)`; caller timeouts are made due by moving the 
 that they fire at the end of a chosen loop iteration.  The Lean driver mirrors asyncio's ready
 queue (FIFO `call_soon`) and executes the same script with the model's primitive ops.
 
-case = {'rounds': [{'batch': [op...], 'fire': [tag...]}...], 'kind': str}
+case = {'rounds': [{'batch': [op...], 'fire': [tag...]}...], 'kind': str, 'readers': bool, 'extra': int}
   op = ['raw', tag, matcher] | ['wait', tag, matcher] | ['exec', tag, mode, matcher]
        (mode: 0 send ok, 1 send raises, 2 send suspends once then ok, 3 suspends once then raises,
         4 send waits for ever — only cancelling the task ends it)
-     | ['msg', conn, cls, [[field, val]...]] | ['cancelfut', tag] | ['canceltask', tag]
+     | ['msg', conn, cls, [[field, val]...], progs?]    D itself awaits `_perform_message_callback` (programs must not suspend)
+     | ['feed', conn, cls, [[field, val]...], progs]    the message goes into the connection's stream: the connection's
+                                                        REAL `_message_reader_loop` (one task per connection, message
+                                                        source stubbed) takes it when it is free and not closing
+     | ['open', gate] | ['cancelfut', tag] | ['canceltask', tag]
+  progs = [prog of MessageReceivedEvent listener 0, prog of listener 1, ...]  — what the handlers of THIS message do
+          between its arrival and the completion of its waiters; prog = [act...]
+  act = ['sleep', k] (k loop iterations) | ['gate', g] | ['close', conn] (await conn.disconnect())
+      | ['raw'|'wait', tag, matcher] | ['exec', tag, mode 0|1, matcher]   a new request (own caller task)
+      | ['nwait'|'nexec', tag, matcher]   the listener awaits wait_for_*_message / execute(response=True) INLINE
+      | ['cancelfut', tag] | ['canceltask', tag] | ['raise']
   matcher = {'cls': 's'|'p', 'msg': 0|1, 'peer': None|int, 'fields': [[field, exp]...]}
-  exp = 'cN' | 'c<k>' | 'pT' | 'pF' | 'pN' | 'pnn' | 'pge<k>' | 'peq<k>' ; conn = 's' | 'pN' | 'p<k>'
+  exp = 'cN' | 'c<k>' | 'pT' | 'pF' | 'pN' | 'pnn' | 'pge<k>' | 'peq<k>'
+  conn = 's' | 'pN' | 'p<k>' | 'q<k>' (a second connection of user k)
   'fire' of round r: the timeouts of these callers fire at the end of the loop iteration in which
-  D runs batch r (after the batch, before the callbacks the batch scheduled).
+  D runs batch r (after everything that was ready when the iteration began, before the callbacks it
+  scheduled) — when the caller computed its timeout while that deadline was still ahead.
 """
 from __future__ import annotations
 
